@@ -24,6 +24,11 @@ pub assume_specification<T, F: FnMut(&T, &T) -> Ordering> [<[T]>::sort_unstable_
     ensures final(v)@.to_multiset() == old(v)@.to_multiset(), final(v)@.len() == old(v)@.len(),
         forall|i: int, j: int| #![trigger final(v)@[i], final(v)@[j]] 0 <= i < j < final(v)@.len()
             ==> exists|o: Ordering| #[trigger] compare.ensures((&final(v)@[i], &final(v)@[j]), o) && o != Ordering::Greater;
+// u8::wrapping_neg (std): 0 - x modulo 256
+pub trait SpecWrappingNeg: Sized { spec fn spec_wrapping_neg(self) -> Self; }
+impl SpecWrappingNeg for u8 { open spec fn spec_wrapping_neg(self) -> u8 { if self == 0 { 0u8 } else { (256 - self as int) as u8 } } }
+pub assume_specification [u8::wrapping_neg] (x: u8) -> (r: u8)
+    ensures r == x.spec_wrapping_neg();
 // std::collections::BTreeMap: its keys in iteration order (each once), and `values()` as the values in that order
 #[verifier::external_body]
 #[verifier::reject_recursive_types(K)]
